@@ -115,6 +115,9 @@ pub fn gen_case(prop: &str, run_seed: u64, tier: Tier) -> TreeCase {
         while v.len() < k {
             v.push((OrderSpec::Seeded(ties.next_u64()), OrderSpec::Seeded(ties.next_u64())));
         }
+        // one construction with no intervention: whatever order the real, randomly keyed hash maps produce
+        // (kept out of digests and fingerprints, which must not depend on it)
+        v.push((OrderSpec::Real, OrderSpec::Real));
         v
     } else {
         vec![(OrderSpec::Canonical, OrderSpec::Canonical)]
@@ -589,7 +592,9 @@ pub fn exec(case: &TreeCase) -> RunOut {
                         l2.iter().take(12).collect::<Vec<_>>()
                     ),
                 );
-                digest.str("build-panic");
+                if !(*o1 == OrderSpec::Real || *o2 == OrderSpec::Real) {
+                    digest.str("build-panic");
+                }
                 continue;
             }
         };
@@ -609,6 +614,11 @@ pub fn exec(case: &TreeCase) -> RunOut {
         }
         let mut d = Digest::default();
         sweep(case, &m, t.as_ref(), which, deep, &mut out, &mut d);
+        let real = *o1 == OrderSpec::Real || *o2 == OrderSpec::Real;
+        if real {
+            out.count("trees_built_under_the_real_hasher", 1);
+            continue;
+        }
         digest.u64(d.0);
         if let Ok(bytes) = ser_vec(t.as_ref(), 0) {
             out.fps.push(fnv(&bytes));
